@@ -301,69 +301,6 @@ __CPROVER_ensures(RPW_CHUNKS_RECORDED((ByteChunks *)source->driver) && g_tx_fram
 __CPROVER_ensures(__CPROVER_return_value <= 0 && __CPROVER_return_value >= -4095)
 ;
 
-/* E(read_from_chunks): the chunk source send_memory hands to rfc1055_encode
- * delivers the unread octets of the chunks in order -- one call: up to n
- * octets of the first chunk (at or after `active`) that still has unread
- * octets, which are consumed -- and -ENODATA exactly when no chunk has any
- * left.  Together with C12's contract of rfc1055_encode ("encodes what the
- * source delivers until it reports -ENODATA") this is what the assumed contract
- * above abbreviates for the serial transport; the induction over the calls is
- * on paper.  Chunk lists of one or two chunks (all send_memory builds). */
-#define RPW_RC_CH_OK(b) ((b)->offset <= (b)->used && (b)->used <= (b)->size && (b)->size <= (size_t)SSIZE_MAX \
-                         && ((b)->used == 0u || __CPROVER_r_ok((b)->data, (b)->used)))
-#define RPW_RC_C(driver) ((ByteChunks *)(driver))
-#define RPW_RC_LAST(c) ((c)->chunks - 1u)   /* index 0 or 1: the second chunk when there is one */
-#define RPW_RC_OK(c) \
-  (__CPROVER_rw_ok((c), sizeof(ByteChunks)) && ((c)->chunks == 1u || (c)->chunks == 2u) && (c)->active <= (c)->chunks \
-   && __CPROVER_rw_ok((c)->chunk, (c)->chunks * sizeof(ByteBuffer)) && !__CPROVER_same_object((c), (c)->chunk) \
-   && RPW_RC_CH_OK(&(c)->chunk[0]) && RPW_RC_CH_OK(&(c)->chunk[RPW_RC_LAST(c)]) \
-   && !__CPROVER_same_object((c)->chunk, (c)->chunk[0].data) && !__CPROVER_same_object((c)->chunk, (c)->chunk[RPW_RC_LAST(c)].data) \
-   && !__CPROVER_same_object((c), (c)->chunk[0].data) && !__CPROVER_same_object((c), (c)->chunk[RPW_RC_LAST(c)].data))
-/* pre-state values (lvalues only under old) */
-#define RPW_RC_A0(c) __CPROVER_old((c)->active)
-#define RPW_RC_O0(c) __CPROVER_old((c)->chunk[0].offset)
-#define RPW_RC_O1(c) __CPROVER_old((c)->chunk[RPW_RC_LAST(c)].offset)
-#define RPW_RC_REST0(c) ((c)->chunk[0].used - RPW_RC_O0(c))
-#define RPW_RC_REST1(c) ((c)->chunk[RPW_RC_LAST(c)].used - RPW_RC_O1(c))
-/* the chunk this call reads from: 0, 1, or `chunks` when nothing is left */
-#define RPW_RC_NEXT(c) \
-  ((RPW_RC_A0(c) == 0u && RPW_RC_REST0(c) > 0u) ? (size_t)0 \
-   : ((c)->chunks == 2u && RPW_RC_A0(c) <= 1u && RPW_RC_REST1(c) > 0u) ? (size_t)1 : (c)->chunks)
-#define RPW_RC_MIN(a, b) ((a) < (b) ? (a) : (b))
-
-static ssize_t read_from_chunks(void *driver, void *data, size_t n)
-__CPROVER_requires(RPW_RC_OK(RPW_RC_C(driver)))
-__CPROVER_requires(n <= (size_t)SSIZE_MAX && (n == 0u || __CPROVER_w_ok(data, n)))
-__CPROVER_requires(!__CPROVER_same_object(data, driver) && !__CPROVER_same_object(data, RPW_RC_C(driver)->chunk)
-    && !__CPROVER_same_object(data, RPW_RC_C(driver)->chunk[0].data)
-    && !__CPROVER_same_object(data, RPW_RC_C(driver)->chunk[RPW_RC_LAST(RPW_RC_C(driver))].data))
-__CPROVER_assigns(RPW_RC_C(driver)->active, RPW_RC_C(driver)->chunk[0].offset,
-    RPW_RC_C(driver)->chunk[RPW_RC_LAST(RPW_RC_C(driver))].offset; n > 0u: __CPROVER_object_upto(data, n))
-/* nothing left: -ENODATA, list exhausted, nothing consumed */
-__CPROVER_ensures(IMPLIES(RPW_RC_NEXT(RPW_RC_C(driver)) == RPW_RC_C(driver)->chunks,
-    __CPROVER_return_value == -ENODATA && RPW_RC_C(driver)->active == RPW_RC_C(driver)->chunks
-    && RPW_RC_C(driver)->chunk[0].offset == RPW_RC_O0(RPW_RC_C(driver))
-    && RPW_RC_C(driver)->chunk[RPW_RC_LAST(RPW_RC_C(driver))].offset == RPW_RC_O1(RPW_RC_C(driver))))
-/* first chunk has octets left: they come first */
-__CPROVER_ensures(IMPLIES(RPW_RC_NEXT(RPW_RC_C(driver)) == 0u,
-    __CPROVER_return_value >= 0
-    && (size_t)__CPROVER_return_value == RPW_RC_MIN(n, RPW_RC_REST0(RPW_RC_C(driver)))
-    && RPW_RC_C(driver)->active == 0u
-    && RPW_RC_C(driver)->chunk[0].offset == RPW_RC_O0(RPW_RC_C(driver)) + (size_t)__CPROVER_return_value
-    && IMPLIES(RPW_RC_C(driver)->chunks == 2u,
-               RPW_RC_C(driver)->chunk[RPW_RC_LAST(RPW_RC_C(driver))].offset == RPW_RC_O1(RPW_RC_C(driver)))
-    && IMPLIES(g_k < RPW_RC_MIN(n, RPW_RC_REST0(RPW_RC_C(driver))),
-               RPW_U8(data)[g_k] == RPW_RC_C(driver)->chunk[0].data[RPW_RC_O0(RPW_RC_C(driver)) + g_k])))
-/* otherwise the second chunk's */
-__CPROVER_ensures(IMPLIES(RPW_RC_C(driver)->chunks == 2u && RPW_RC_NEXT(RPW_RC_C(driver)) == 1u,
-    __CPROVER_return_value >= 0
-    && (size_t)__CPROVER_return_value == RPW_RC_MIN(n, RPW_RC_REST1(RPW_RC_C(driver)))
-    && RPW_RC_C(driver)->active == 1u
-    && RPW_RC_C(driver)->chunk[1].offset == RPW_RC_O1(RPW_RC_C(driver)) + (size_t)__CPROVER_return_value
-    && RPW_RC_C(driver)->chunk[0].offset == RPW_RC_O0(RPW_RC_C(driver))
-    && IMPLIES(g_k < RPW_RC_MIN(n, RPW_RC_REST1(RPW_RC_C(driver))),
-               RPW_U8(data)[g_k] == RPW_RC_C(driver)->chunk[1].data[RPW_RC_O1(RPW_RC_C(driver)) + g_k])))
-;
 #endif /* REGP_WIRE_FRAMING */
 
 /* -------------------------------------------------------------- requests */
